@@ -34,6 +34,10 @@ type Opts struct {
 	Chunked    bool // use the begin/chunk/data form for some arrays
 	TopContainer bool // top-level object must be a list or map
 	ArrayBias  bool // make about half of the values arrays
+	TopMap         bool // with TopContainer: the top-level object is a map
+	StringKeysOnly bool // map keys are always "k1", "k2", ... (field names of struct-shaped templates)
+	MarkerBias     bool // markers and references three times as often
+	RecursiveRefs  bool // a marked container may be referenced from inside itself
 	NoNull     bool
 	ASCIIMedia bool // CTE cannot carry a non-ASCII media type (a round-trip matter, not ours)
 	Budget     int // rough cap on the number of events
@@ -73,6 +77,7 @@ type sgen struct {
 	keyCtr  int
 	markCtr int
 	marks   []string // ids of completed marked objects (non-keyable-safe refs only as values)
+	pendingMark string
 	recs    []recType
 	count   int
 }
@@ -99,7 +104,7 @@ func Stream(t *tape.Tape, o Opts) []rec.Ev {
 	}
 	g.noise()
 	if o.TopContainer {
-		if t.Bool("top-map") {
+		if t.Bool("top-map") || o.TopMap {
 			g.mapv(0)
 		} else {
 			g.list(0)
@@ -138,7 +143,11 @@ func (g *sgen) text(label string, maxRunes int, nonEmpty bool) string {
 func (g *sgen) key() {
 	g.keyCtr++
 	c := g.keyCtr
-	switch g.t.Intn("key-kind", 6) {
+	kind := g.t.Intn("key-kind", 6)
+	if g.o.StringKeysOnly {
+		kind = 0 // "k1", "k2", ...: the field names of the struct-shaped templates
+	}
+	switch kind {
 	case 0:
 		g.stringArray(events.ArrayTypeString, []byte(fmt.Sprintf("k%d", c)))
 	case 1:
@@ -166,13 +175,25 @@ func (g *sgen) value(depth int) {
 	g.noise()
 	// markers / references wrap or replace a value
 	if g.o.Markers && depth > 0 {
-		switch g.t.Intn("mark?", 8) {
+		roll := g.t.Intn("mark?", 8)
+		if g.o.MarkerBias && roll >= 5 {
+			roll = 1 + roll%2 // markers and references three times as often
+		}
+		switch roll {
 		case 1:
 			g.markCtr++
 			id := fmt.Sprintf("m%d", g.markCtr)
 			g.emit(rec.Ev{K: rec.KMarker, S: []byte(id)})
+			if g.o.RecursiveRefs {
+				// the marker becomes referable as soon as its container opens:
+				// references from inside the marked container make it cyclic
+				g.pendingMark = id
+			}
 			g.plainValue(depth, true)
-			g.marks = append(g.marks, id)
+			if g.pendingMark == id || !g.o.RecursiveRefs {
+				g.marks = append(g.marks, id)
+			}
+			g.pendingMark = ""
 			return
 		case 2:
 			if len(g.marks) > 0 {
@@ -312,8 +333,16 @@ func (g *sgen) simpleNonNull(depth int) {
 	}
 }
 
+func (g *sgen) openMarked() {
+	if g.pendingMark != "" {
+		g.marks = append(g.marks, g.pendingMark)
+		g.pendingMark = ""
+	}
+}
+
 func (g *sgen) list(depth int) {
 	g.emit(rec.Ev{K: rec.KList})
+	g.openMarked()
 	n := g.t.Small("list-n", g.o.MaxItems)
 	for i := 0; i < n; i++ {
 		g.value(depth + 1)
@@ -324,6 +353,7 @@ func (g *sgen) list(depth int) {
 
 func (g *sgen) mapv(depth int) {
 	g.emit(rec.Ev{K: rec.KMap})
+	g.openMarked()
 	n := g.t.Small("map-n", g.o.MaxItems)
 	for i := 0; i < n; i++ {
 		g.noise()
